@@ -1,5 +1,5 @@
 SPECIFICATION Spec
 CONSTANTS MaxFuncs = 3
  MaxInstr = 3
-INVARIANTS Refines ResetOk
+INVARIANTS Refines ResetOk CompRefines
 CHECK_DEADLOCK FALSE
